@@ -16,8 +16,8 @@ type sent struct {
 	kind   txKind
 	w      *wireTx // the oracle's reading of raw
 	raw    []byte
-	holder *userKey // the key holder (nil for mst)
-	indep  bool     // signed by the rig's own btcec client instead of linkchain's Sign
+	holder *userKey  // the key holder (nil for mst)
+	indep  bool      // signed by the rig's own btcec client instead of linkchain's Sign
 	utx    *utxTruth // confidential transactions: what was addressed to whom
 	desc   string
 }
